@@ -552,9 +552,21 @@ def analyse_matrix_kernel(ck, fn, struct):
                                       and [x.get("k") for x in stmts(s["then"])] == ["Return"])]
         problems = []
         cleared = None        # extent [0, cleared) of the output vector zeroed by a loop in front of the row loop
-        if struct in ("Lumping", "RowNorm") and len(top) > 1 and all(x_.get("k") == "For" for x_ in top):
+        def is_row_loop(F_):
+            lf0 = loop_form(F_) if F_.get("k") == "For" else None
+            if lf0 is None or lf0["others"] or lf0["down"] or lf0["hi_off"] or not is_zero(mk.loc.resolve(lf0["lo"])):
+                return False
+            h_ = mk.loc.resolve(lf0["hi"])
+            return h_.get("k") == "Ref" and h_.get("dk") == "param" and h_.get("n") == "rows"
+        # several loops over the rows in sequence (one kernel forwarding to its sibling plus a second pass, loop fission): rows are
+        # independent - every statement addresses the row's own entries only (checked by cell()) - so they read as one fused loop
+        n_lead = 0
+        while n_lead < len(top) - 1 and not is_row_loop(top[n_lead]):
+            n_lead += 1
+        row_loops = top[n_lead:]
+        if struct in ("Lumping", "RowNorm") and n_lead > 0 and all(x_.get("k") == "For" for x_ in top):
             outname = "lump" if struct == "Lumping" else "row_norms"
-            for pre in top[:-1]:
+            for pre in top[:n_lead]:
                 lf_ = loop_form(pre)
                 body_ = stmts(pre.get("body"))
                 if lf_ is None or lf_["others"] or lf_["down"] or lf_["hi_off"] or not is_zero(mk.loc.resolve(lf_["lo"])) or len(body_) != 1 or body_[0].get("k") != "Assign" or body_[0].get("op") != "=":
@@ -567,11 +579,12 @@ def analyse_matrix_kernel(ck, fn, struct):
                         or not (is_zero(rz) or (rz.get("k") in ("Int", "Float") and float(rz["v"]) == 0)) or cleared is not None:
                     raise Unknown("loop at line %s in front of the row loop is not a clearing loop `for(t=0; t<n; ++t) %s[t] = 0`" % (pre.get("l"), outname))
                 cleared = (sympy.expand(mk.isym(lf_["hi"])), pre.get("l"))
-            top = top[-1:]
-        if len(top) != 1 or top[0].get("k") != "For":
-            raise Unknown("body is not a single loop over the rows")
+            top = row_loops
+        if not top or not all(is_row_loop(x_) for x_ in top):
+            raise Unknown("body is not a single loop over the rows (or a sequence of such loops)")
         out = []
-        mk.leaves(top[0], {}, out)
+        for F_ in top:
+            mk.leaves(F_, {}, out)
         if "ROW" not in (out[0][1] if out else {}):
             raise Unknown("outer loop is not for(row=0; row<rows; ++row)")
         events = []       # (where, target, op, new, line)
